@@ -90,6 +90,7 @@ def detect(base, cur_inv, cur_txt):
     vocab = set(base['vocab'])
     ren = {}
     log = []
+    structured = []     # (adt path on the reference tree, new field name, reference field name): applied to field positions only
 
     def accept(pairs, why):
         for new, old in pairs:
@@ -132,7 +133,12 @@ def detect(base, cur_inv, cur_txt):
                 continue
             for (bn, bt), (cn, ct) in zip(bf, cf):
                 if bn != cn and _sub(ct, list(ren.items())) == bt and bn not in [x for x, _ in cf]:
-                    accept([(cn, bn)], 'field of %s at the same position with the same type' % op)
+                    if cn in vocab and IDENT.fullmatch(cn) and IDENT.fullmatch(bn):
+                        # the new name already means something elsewhere: rename this field only where it is used as a field of this type
+                        structured.append((p, cn, bn))
+                        log.append('field %s of %s was renamed to %s (same position, same type; applied to field uses of this type only)' % (bn, op, cn))
+                    else:
+                        accept([(cn, bn)], 'field of %s at the same position with the same type' % op)
     # 3. functions: missing vs new; same kind / impl / signature, unique best callee overlap
     rl = list(ren.items())
     b_fns = base['fns']
@@ -158,7 +164,7 @@ def detect(base, cur_inv, cur_txt):
         cands.sort(reverse=True)
         if cands and cands[0][0] >= 0.5 and (len(cands) == 1 or cands[0][0] - cands[1][0] >= 0.2):
             accept(cands[0][2], 'function %s has the signature, impl and callees of %s' % (cands[0][1], m))
-    return list(ren.items()), log
+    return list(ren.items()), log, structured
 
 
 def _shape(a):
@@ -168,20 +174,61 @@ def _shape(a):
 def renames_for(raw_std_unimock, raw_std_macros):
     """renames of the current tree relative to the committed baseline, from the raw facts of the std configuration"""
     if not os.path.exists(BASELINE):
-        return [], ['no baseline inventory: names are taken as they are']
+        return Renames([]), ['no baseline inventory: names are taken as they are']
     base = json.load(open(BASELINE))
-    ren, log = [], []
+    ren, log, structured = [], [], []
     for crate, raw in (('unimock', raw_std_unimock), ('unimock_macros', raw_std_macros)):
         if raw is None or crate not in base:
             continue
         inv = inventory(json.loads(raw))
-        r, l = detect(base[crate], inv, raw)
+        r, l, st = detect(base[crate], inv, raw)
         for x in r:
             if x not in ren:
                 ren.append(x)
         log += l
-    return ren, log
+        structured += st
+    return Renames(ren, structured), log
+
+
+class Renames(list):
+    """textual renames (list of (new, old)) plus structured field renames"""
+    def __init__(self, textual, structured=()):
+        list.__init__(self, textual)
+        self.structured = list(structured)
+
+    def __bool__(self):
+        return len(self) > 0 or bool(self.structured)
+
+
+def apply_structured(j, structured):
+    """rename fields in place where they are used as fields of the given type: projections, ADT definitions, aggregate field lists"""
+    if not structured:
+        return
+    by_adt = {}
+    for adt, new, old in structured:
+        by_adt.setdefault(adt, {})[new] = old
+    for adt, m in by_adt.items():
+        a = j.get('adts', {}).get(adt)
+        if a:
+            for v in a['variants']:
+                for fl in v['fields']:
+                    fl['name'] = m.get(fl['name'], fl['name'])
+
+    def walk(x):
+        if isinstance(x, dict):
+            ad = x.get('adt')
+            if ad in by_adt:
+                if isinstance(x.get('name'), str) and x['name'] in by_adt[ad] and 'f' in x:
+                    x['name'] = by_adt[ad][x['name']]
+                if isinstance(x.get('fields'), list):
+                    x['fields'] = [by_adt[ad].get(f, f) if isinstance(f, str) else f for f in x['fields']]
+            for v in x.values():
+                walk(v)
+        elif isinstance(x, list):
+            for v in x:
+                walk(v)
+    walk(j.get('fns'))
 
 
 def apply(txt, ren):
-    return _sub(txt, ren) if ren else txt
+    return _sub(txt, list(ren)) if len(ren) else txt
